@@ -97,6 +97,25 @@ def run_programs(spec):
                     sh.violation("second_run_differs", (o["id"],), dict(case, twice=True),
                                  {"op": o["id"], "only_first": [d for d in r.diags if d not in r2.diags][:3],
                                   "only_second": [d for d in r2.diags if d not in r.diags][:3]})
+            if ok and napp % 9 == 0 and o["id"] != "V68":       # (V68 is about the line right above: comments there end it)
+                # the same violation in a long file: more than a thousand comment lines right above the function (or
+                # the file-level declaration) that holds it - whatever looks back from there has far to look
+                idx = q.index_of_lineno(exp)
+                ln = q.lines[idx]
+                j = None
+                if ln.func >= 0 and ln.kind != "fhead":
+                    j = next((i2 for i2 in range(idx, -1, -1) if q.lines[i2].kind == "fhead"), None)
+                elif ln.kind in ("fhead", "proto", "global"):
+                    j = idx
+                if j is not None and q.lines[j].kind != "hdr":
+                    from nv.gen.ir import Line
+                    npad = 1100
+                    q2 = q.copy()
+                    q2.lines[j:j] = [Line("comment", [("// filler %d" % i2, "comment:line")]) for i2 in range(npad)]
+                    r3 = core.api_run(q2.name, q2.text(), clock=False)
+                    sh.case(q2.name + "\0pad\0" + src)
+                    sh.tally("padded", "n")
+                    judge(sh, q2, o, exp + npad, r3, dict(case, ir=q2.to_json(), expected_line=exp + npad, padded=npad))
             lk = q.lines[q.index_of_lineno(exp)].kind
             sh.cover("op_contexts", "%s/%s/%d" % (o["id"], lk, q.lines[q.index_of_lineno(exp)].depth))
         if "q" in dir() and q is not None:
